@@ -277,8 +277,10 @@ class CoordinateList(CompressionFormat):
     # get size of representation
     def getSize(self): 
         # self.printFiber()
+        # one payload per coordinate when the next rank needs explicit
+        # payloads (an empty fiber has neither)
         if self.next_fmt != None and self.next_fmt.encodeUpperPayload():
-            assert(len(self.payloads) > 0)
+            assert(len(self.payloads) == len(self.coords))
 
         size = len(self.coords) + len(self.occupancies)
         # Don't need to store occupancies if lower level is U
